@@ -2,6 +2,7 @@ import Qhttp.Model.Copier
 import Qhttp.Lemmas.C14Run
 import Qhttp.Lemmas.C14Seq
 import Qhttp.Lemmas.C14Open
+import Qhttp.Lemmas.C14Restart
 /-
   C14 — the device copier delivers exactly the requested bytes and signals completion once.
 -/
@@ -17,15 +18,33 @@ def isWrote : Obs → Bool | .misc 1 _ => true | _ => false
 def anyFault (c : Cfg) : Bool :=
   c.srcOpenFails || c.dstOpenFails || c.seekFails || c.readFailAt.isSome || c.writeFailAt.isSome
 
-/-- the bytes a copy is asked for: the whole source, or `src[from .. min to (|src|-1)]` -/
+/-- the position of the first byte copied: `start()` seeks to the start of the range only when it
+    is > 0; otherwise the copy begins where the random-access source stands (`prePos`: 0 for a
+    source nobody has read from, the point reached by earlier reads or by an earlier, stopped copy) -/
+def firstPos (c : Cfg) : Nat := if rangeFrom c > 0 then (rangeFrom c).toNat else c.prePos
+
+/-- the bytes a copy is asked for, `p` being the position of the first byte: everything from `p`,
+    or `src[p .. min to (|src|-1)]` -/
 def wanted (c : Cfg) : Bytes :=
   match c.range with
-  | none => c.src
+  | none => c.src.drop c.prePos
   | some (f, t) =>
     if f < 0 then [] else
-    let f' := f.toNat
-    if t < 0 then c.src.drop f' else
-    if t < f then [] else (c.src.drop f').take (t.toNat + 1 - f')
+    let p := if f > 0 then f.toNat else c.prePos
+    if t < 0 then c.src.drop p else
+    if t < p then [] else (c.src.drop p).take (t.toNat + 1 - p)
+
+/-- the range part of `holds`' domain: the first byte lies inside the source (a `QBuffer` opened
+    for reading cannot be positioned past its end: `seek` refuses, and so does the harness), `to`
+    is -1 ("to the end") or not before the first byte -/
+def rangeOK (c : Cfg) : Bool :=
+  match c.range with
+  | some (f, t) => f ≥ 0 && (t ≥ firstPos c || t == -1) && firstPos c ≤ c.src.length
+  | none => c.prePos ≤ c.src.length
+
+/-- what the destination is to receive: the wanted bytes of a random-access source; a sequential
+    source has no position (and no range: outside `setRange()`'s domain): all it delivers -/
+def asked (c : Cfg) : Bytes := if c.seq then c.src else wanted c
 
 def hasStop (evs : List Ev) : Bool := evs.any (· == .stop)
 def nTurns (evs : List Ev) : Nat := (evs.filter (· == .turn)).length
@@ -36,8 +55,10 @@ def afterStop (evs : List Ev) (obs : List Obs) : List Obs :=
   | none => []
   | some k => (obs.dropWhile (fun o => o != Obs.ev k)).drop 1
 
-/-- scenario shape: `start` first, then turns (and, for a sequential source, arrivals and one
-    eof), at most one `stop`.
+/-- scenario shape: `start` first, then turns (and, for a sequential source, arrivals — announced
+    by `readyRead()` or not — and one eof), at most one `stop`; the random-access source may stand
+    anywhere inside its content when the scenario begins (`prePos`).  (A scenario that starts the
+    copy a second time is cut at the second `start` first: `holdsRuns`.)
      * whatever reaches the destination is a prefix of the wanted bytes (in order, no duplicate);
      * left to run (no stop, no fault, enough turns / eof delivered): exactly the wanted bytes,
        one completion, after the last write; ranges on a sequential source are outside the
@@ -46,18 +67,16 @@ def afterStop (evs : List Ev) (obs : List Obs) : List Obs :=
      * after stop() returned: no further byte, no further completion. -/
 def holds (c : Cfg) (evs : List Ev) (obs : List Obs) : Bool :=
   let w := writtenOf obs
-  let ranged := c.range.isSome
-  let domain := c.block ≥ 1 && !(c.seq && ranged) &&
-                (match c.range with | some (f, t) => f ≥ 0 && (t ≥ f || t == -1) && f ≤ c.src.length | none => true)
+  let domain := c.block ≥ 1 && (if c.seq then !c.range.isSome else rangeOK c)
   if !domain then true else
-  w.isPrefixOf (wanted c) &&
+  w.isPrefixOf (asked c) &&
   -- completion never precedes a write (unless the application stopped the copy)
   (hasStop evs || Obs.countP isWrote ((obs.dropWhile (fun o => !isFin o)).drop 1) == 0) &&
   -- left to run
   (if !hasStop evs && !anyFault c &&
        (if c.seq then evs.getLast? == some .eof
         else nTurns evs ≥ (wanted c).length / c.block + 2 && evs.head? == some .start)
-   then w == wanted c && Obs.countP isFin obs == 1
+   then w == asked c && Obs.countP isFin obs == 1
    else true) &&
   -- faults: error then exactly one completion (random-access block copy and open failures)
   (if anyFault c && !hasStop evs && !c.seq && Obs.countP isErr obs ≥ 1
@@ -97,14 +116,56 @@ theorem isErr_eq : isErr = C14L.isErr := rfl
 theorem isWrote_eq : isWrote = C14L.isWrote := rfl
 theorem anyFault_eq : anyFault = C14L.anyFault := rfl
 theorem wanted_eq : wanted = C14L.wanted := rfl
+theorem firstPos_eq : firstPos = C14L.firstPos := rfl
 theorem nTurns_eq : nTurns = C14L.nTurns := rfl
 
-/-- the range part of `holds`' domain: `from` inside the source, `to` = -1 ("to the end") or ≥ `from` -/
-def rangeOK (c : Cfg) : Bool :=
-  match c.range with
-  | some (f, t) => f ≥ 0 && (t ≥ f || t == -1) && f ≤ c.src.length
-  | none => true
 theorem rangeOK_eq : rangeOK = C14L.rangeOK := rfl
+
+/-- a source nobody has read from (`prePos = 0`): the first byte is the start of the range, … -/
+theorem firstPos_fresh (c : Cfg) (h0 : c.prePos = 0) (hf : 0 ≤ rangeFrom c) :
+    firstPos c = (rangeFrom c).toNat := by
+  unfold firstPos; rw [h0]; split <;> omega
+/-- … the wanted bytes are the whole source or `src[from .. min to (|src|-1)]`, … -/
+theorem wanted_fresh (c : Cfg) (h0 : c.prePos = 0) :
+    wanted c = match c.range with
+      | none => c.src
+      | some (f, t) =>
+        if f < 0 then [] else
+        if t < 0 then c.src.drop f.toNat else
+        if t < f then [] else (c.src.drop f.toNat).take (t.toNat + 1 - f.toNat) := by
+  unfold wanted; rw [h0]
+  cases c.range with
+  | none => rfl
+  | some ft =>
+    obtain ⟨f, t⟩ := ft
+    simp only []
+    have hp : (if f > 0 then f.toNat else 0) = f.toNat := by split <;> omega
+    rw [hp]
+    by_cases hf : f < 0
+    · simp [hf]
+    · by_cases ht : t < 0
+      · simp [hf, ht]
+      · have : (t < (f.toNat : Int)) ↔ t < f := by omega
+        simp only [hf, ht, if_false, this]
+/-- … and the domain is `0 ≤ from ≤ |src|`, `to = -1` or `to ≥ from` -/
+theorem rangeOK_fresh (c : Cfg) (h0 : c.prePos = 0) :
+    rangeOK c = match c.range with
+      | some (f, t) => decide (f ≥ 0) && (decide (t ≥ f) || t == -1) && decide (f ≤ c.src.length)
+      | none => true := by
+  unfold rangeOK
+  cases hr : c.range with
+  | none => simp [h0]
+  | some ft =>
+    obtain ⟨f, t⟩ := ft
+    simp only []
+    by_cases hf : f ≥ 0
+    · have e1 : rangeFrom c = f := by simp [rangeFrom, hr]
+      have hp := firstPos_fresh c h0 (by rw [e1]; exact hf)
+      rw [hp, e1]
+      have h1 : (t ≥ (f.toNat : Int)) ↔ t ≥ f := by omega
+      have h2 : (f.toNat ≤ c.src.length) ↔ f ≤ (c.src.length : Int) := by omega
+      simp only [h1, h2]
+    · simp [hf]
 
 /-- events that neither (re)start nor stop the copy -/
 def quiet (r : List Ev) : Bool := r.all fun e => e != .start && e != .stop
@@ -156,20 +217,22 @@ theorem exact_random_access (c : Cfg) (hseq : c.seq = false) (hnf : anyFault c =
 
 /-! ### 2. reversed range -/
 
-/-- `setRange(f, t)` with `0 ≤ t < f ≤ |src|`: nothing is written and completion is signalled
-    exactly once.  For `t < f - 1` the (negative-length) write fails, so `err` precedes the `fin`;
-    for the empty range `t = f - 1` the copy just completes.  The log is given exactly. -/
+/-- `setRange(f, t)` with `0 ≤ t < p ≤ |src|`, `p` the position of the first byte (`f` if > 0,
+    else where the source stands): nothing is written and completion is signalled exactly once.
+    For `t < p - 1` the (negative-length) write fails, so `err` precedes the `fin`; for the empty
+    range `t = p - 1` the copy just completes.  The log is given exactly. -/
 theorem reversed_range (c : Cfg) (hseq : c.seq = false) (hnf : anyFault c = false) (f t : Int)
-    (hrange : c.range = some (f, t)) (ht0 : 0 ≤ t) (htf : t < f) (hfl : f ≤ c.src.length) (n : Nat) :
+    (hrange : c.range = some (f, t)) (ht0 : 0 ≤ t) (htf : t < firstPos c) (hfl : firstPos c ≤ c.src.length) (n : Nat) :
     let s := Copier.run c (.start :: List.replicate (n + 1) .turn)
-    s.log = [Obs.ev 0, Obs.ev 1] ++ (if t + 1 < f then [err, fin] else [fin]) ++ (List.range' 2 n).map Obs.ev ∧
+    s.log = [Obs.ev 0, Obs.ev 1] ++ (if t + 1 < firstPos c then [err, fin] else [fin]) ++ (List.range' 2 n).map Obs.ev ∧
     writtenOf s.log = [] ∧
     Obs.countP isFin s.log = 1 ∧
-    Obs.countP isErr s.log = (if t + 1 < f then 1 else 0) ∧
+    Obs.countP isErr s.log = (if t + 1 < firstPos c then 1 else 0) ∧
     s.pending = .none := by
   intro s
   obtain ⟨hl, hp⟩ := C14L.run_reversed c hseq hnf f t hrange ht0 htf hfl n
   have hmk := C14L.range'_map_mk 2 n
+  rw [← firstPos_eq] at hl
   refine ⟨hl, ?_, ?_, ?_, hp⟩
   · show writtenOf s.log = []
     rw [hl, writtenOf_eq, C14L.written_append, C14L.written_append, C14L.written_of_mk hmk]
@@ -181,25 +244,45 @@ theorem reversed_range (c : Cfg) (hseq : c.seq = false) (hnf : anyFault c = fals
     rw [hl, isErr_eq, C14L.cnt_append, C14L.cnt_append, C14L.cnt_of_mk C14L.mk_not_err hmk]
     split <;> simp [C14L.cnt_cons]
 
+/-- the same for a range whose start is > 0 (`start()` seeks there, wherever the source stood):
+    `setRange(f, t)` with `0 ≤ t < f ≤ |src|`, for every `prePos` -/
+theorem reversed_range_seek (c : Cfg) (hseq : c.seq = false) (hnf : anyFault c = false) (f t : Int)
+    (hrange : c.range = some (f, t)) (ht0 : 0 ≤ t) (htf : t < f) (hfl : f ≤ c.src.length) (n : Nat) :
+    let s := Copier.run c (.start :: List.replicate (n + 1) .turn)
+    s.log = [Obs.ev 0, Obs.ev 1] ++ (if t + 1 < f then [err, fin] else [fin]) ++ (List.range' 2 n).map Obs.ev ∧
+    writtenOf s.log = [] ∧
+    Obs.countP isFin s.log = 1 ∧
+    Obs.countP isErr s.log = (if t + 1 < f then 1 else 0) ∧
+    s.pending = .none := by
+  have e1 : rangeFrom c = f := by simp [rangeFrom, hrange]
+  have hp : (firstPos c : Int) = f := by
+    unfold firstPos; rw [e1, if_pos (by omega)]; omega
+  have := reversed_range c hseq hnf f t hrange ht0 (by rw [hp]; exact htf) (by omega) n
+  rw [hp] at this
+  exact this
+
 /-! ### 3. sequential source -/
 
 /-- the bytes an event makes available on a sequential source -/
-def pieceOf : Ev → Bytes | .arrive b => b | _ => []
-/-- everything that arrived, in order -/
+def pieceOf : Ev → Bytes | .arrive b => b | .arriveQ b => b | _ => []
+/-- everything that arrived, announced by `readyRead()` or not, in order -/
 def arrivedOf (evs : List Ev) : Bytes := evs.flatMap pieceOf
 theorem arrivedOf_eq : arrivedOf = C14L.arrived := rfl
 
-/-- only arrivals and event-loop turns -/
-def feedOnly (r : List Ev) : Bool := r.all fun e => match e with | .arrive _ => true | .turn => true | _ => false
+/-- only arrivals (announced by `readyRead()` or quiet) and event-loop turns -/
+def feedOnly (r : List Ev) : Bool :=
+  r.all fun e => match e with | .arrive _ => true | .arriveQ _ => true | .turn => true | _ => false
 
 theorem feedOnly_iff {r : List Ev} (h : feedOnly r = true) : ∀ e ∈ r, e ≠ .start ∧ e ≠ .stop ∧ e ≠ .eof := by
   intro e he
   have := List.all_eq_true.1 h e he
   cases e <;> simp_all
 
-/-- a sequential source delivering its data in arbitrary pieces, interleaved with arbitrary
-    event-loop turns, then end-of-data: exactly the arrived bytes are written, no error, exactly
-    one completion, and it is the very last observation (after the last write) -/
+/-- a sequential source delivering its data in arbitrary pieces — each announced by `readyRead()`
+    (`arrive`) or just appended to what the source holds (`arriveQ`: e.g. a last piece that comes
+    together with the end of the stream) —, interleaved with arbitrary event-loop turns, then
+    end-of-data: exactly the arrived bytes (the quiet ones included) are written, no error,
+    exactly one completion, and it is the very last observation (after the last write) -/
 theorem sequential (c : Cfg) (hseq : c.seq = true) (hnf : anyFault c = false)
     (r : List Ev) (hr : feedOnly r = true) :
     let s := Copier.run c (.start :: (r ++ [.eof]))
@@ -273,11 +356,10 @@ theorem errors (c : Cfg) (hseq : c.seq = false) (hb : c.block ≥ 1) (hr : range
     rw [C14L.startFails_nonseq c hseq hnf] at hsf
     simp only [Bool.or_eq_false_iff, Bool.and_eq_false_iff, decide_eq_false_iff_not] at hsf
     obtain ⟨⟨h1, h2⟩, h3⟩ := hsf
-    have hfr : (rangeFrom c > 0) ↔ C14L.f0 c > 0 := by rw [hnf.from_eq]; omega
     simp only [faultReached, h1, h2, Bool.false_or, Bool.or_eq_true, Bool.and_eq_true, decide_eq_true_eq] at hf
     rcases hf with (⟨h4, h5⟩ | h4) | h4
     · rcases h3 with h3 | h3
-      · exact h3 (hfr.1 h5)
+      · exact h3 h5
       · rw [h3] at h4; cases h4
     · cases hk : c.readFailAt with
       | none => rw [hk] at h4; cases h4
@@ -338,31 +420,37 @@ theorem stop_halts (c : Cfg) (pre post : List Ev) (hpre : Ev.stop ∉ pre) (hpos
 
 /-! ### 6. the executable predicate holds on every model run -/
 
+theorem asked_nonseq (c : Cfg) (h : c.seq = false) : asked c = wanted c := by simp [asked, h]
+theorem asked_seq (c : Cfg) (h : c.seq = true) : asked c = c.src := by simp [asked, h]
+
 /-- `holds` from its five clauses in mathematical form (inside the documented domain) -/
 theorem holds_intro (c : Cfg) (evs : List Ev) (obs : List Obs)
-    (h : c.block ≥ 1 → (c.seq = true → c.range = none) → rangeOK c = true →
-      (writtenOf obs <+: wanted c) ∧
+    (h : c.block ≥ 1 → (c.seq = true → c.range = none) → (c.seq = false → rangeOK c = true) →
+      (writtenOf obs <+: asked c) ∧
       (hasStop evs = false → Obs.countP isWrote ((obs.dropWhile (fun o => !isFin o)).drop 1) = 0) ∧
       (hasStop evs = false → anyFault c = false →
         (if c.seq then evs.getLast? = some .eof
          else nTurns evs ≥ (wanted c).length / c.block + 2 ∧ evs.head? = some .start) →
-        writtenOf obs = wanted c ∧ Obs.countP isFin obs = 1) ∧
+        writtenOf obs = asked c ∧ Obs.countP isFin obs = 1) ∧
       (anyFault c = true → hasStop evs = false → c.seq = false → Obs.countP isErr obs ≥ 1 →
         Obs.countP isFin obs = 1 ∧ Obs.countP isErr (obs.dropWhile (fun o => !isFin o)) = 0) ∧
       (Obs.countP isWrote (afterStop evs obs) = 0 ∧ Obs.countP isFin (afterStop evs obs) ≤ 1)) :
     holds c evs obs = true := by
   unfold holds
   simp only []
-  change (if (!(decide (c.block ≥ 1) && !(c.seq && c.range.isSome) && rangeOK c)) = true then true else _) = true
-  cases hdom : (decide (c.block ≥ 1) && !(c.seq && c.range.isSome) && rangeOK c)
+  cases hdom : (decide (c.block ≥ 1) && (if c.seq then !c.range.isSome else rangeOK c))
   · rfl
-  · simp only [Bool.and_eq_true, decide_eq_true_eq, Bool.not_eq_true', Bool.and_eq_false_iff] at hdom
-    obtain ⟨⟨hb, hsr⟩, hr⟩ := hdom
+  · simp only [Bool.and_eq_true, decide_eq_true_eq] at hdom
+    obtain ⟨hb, hd2⟩ := hdom
     have hsr' : c.seq = true → c.range = none := by
       intro hs
-      rcases hsr with h | h
-      · rw [hs] at h; cases h
-      · cases hh : c.range <;> simp_all
+      rw [hs] at hd2
+      simp only [if_true] at hd2
+      cases hh : c.range <;> simp_all
+    have hr : c.seq = false → rangeOK c = true := by
+      intro hs
+      rw [hs] at hd2
+      simpa using hd2
     obtain ⟨hA, hB, hC, hD, hE1, hE2⟩ := h hb hsr' hr
     simp only [Bool.not_true, Bool.false_eq_true, if_false]
     refine Bool.and_eq_true_iff.2 ⟨Bool.and_eq_true_iff.2 ⟨Bool.and_eq_true_iff.2 ⟨Bool.and_eq_true_iff.2 ⟨?_, ?_⟩, ?_⟩, ?_⟩,
@@ -392,8 +480,9 @@ theorem holds_intro (c : Cfg) (evs : List Ev) (obs : List Obs)
     · exact decide_eq_true hE2
 
 /-- scenario shape: `start` first and only there, at most one `stop`; for a sequential source
-    additionally: `eof` at most once and only as the last event, the arrivals are (in order) pieces of
-    a prefix of the source content, and all of it when the scenario ends with `eof`.  (On a
+    additionally: `eof` at most once and only as the last event, the arrivals (`arrive` and the
+    quiet `arriveQ`) are (in order) pieces of a prefix of the source content, and all of it when
+    the scenario ends with `eof`.  (On a
     random-access source arrivals and eof are no-ops and may occur anywhere.) -/
 def shape (c : Cfg) (evs : List Ev) : Bool :=
   match evs with
@@ -442,12 +531,13 @@ theorem afterStop_none (evs : List Ev) (obs : List Obs) (h : Ev.stop ∉ evs) : 
 theorem nTurns_start (rest : List Ev) : nTurns (.start :: rest) = C14L.nTurns rest := by
   rw [nTurns_eq, C14L.nTurns_cons]; simp
 
-theorem wanted_none (c : Cfg) (h : c.range = none) : wanted c = c.src := by simp [wanted, h]
+theorem wanted_none (c : Cfg) (h : c.range = none) : wanted c = c.src.drop c.prePos := by simp [wanted, h]
 
 /-- **C14, main theorem.**  On every model run of the scenario shape — `start`, then any mix of
     event-loop turns, at most one `stop`, and for a sequential source the arrivals of the source
-    content in arbitrary pieces with `eof` last — for every configuration (content, block size,
-    range, source kind, device faults), the executable predicate evaluated by the driver holds. -/
+    content in arbitrary pieces, announced or quiet, with `eof` last — for every configuration
+    (content, block size, range, source kind, position of the random-access source at the
+    beginning, device faults), the executable predicate holds. -/
 theorem holds_run (c : Cfg) (evs : List Ev) (hs : shape c evs = true) :
     holds c evs (Copier.run c evs).log = true := by
   cases evs with
@@ -458,13 +548,13 @@ theorem holds_run (c : Cfg) (evs : List Ev) (hs : shape c evs = true) :
   | stop => simp [shape] at hs
   | arrive b => simp [shape] at hs
   | eof => simp [shape] at hs
+  | arriveQ b => simp [shape] at hs
   | start =>
   simp only [shape, Bool.and_eq_true, Bool.not_eq_true', decide_eq_true_eq, Bool.or_eq_true,
     List.contains_eq_mem, decide_eq_false_iff_not, bne_iff_ne, ne_eq, beq_iff_eq] at hs
   obtain ⟨⟨h_ns, h_st⟩, h_sq⟩ := hs
   apply holds_intro
   intro hb hsr hr
-  have hnf := C14L.rangeNF_of_ok c hr
   by_cases hstop : Ev.stop ∈ rest
   · -- a stop: only the prefix clause and the stop clause are active
     obtain ⟨r1, r2, rfl⟩ := List.append_of_mem hstop
@@ -484,7 +574,8 @@ theorem holds_run (c : Cfg) (evs : List Ev) (hs : shape c evs = true) :
     refine ⟨?_, ?_, ?_, ?_, ?_, ?_⟩
     · rw [hw]
       cases hseq : c.seq
-      · exact (C14L.run_ninv c hseq hb hnf r1 hq1).prefix
+      · rw [asked_nonseq c hseq]
+        exact (C14L.run_ninv c hseq hb (C14L.rangeNF_of_ok c (hr hseq)) r1 hq1).prefix
       · rcases h_sq with h | ⟨⟨he, hp⟩, _⟩
         · rw [hseq] at h; cases h
         · have he1 : ∀ e ∈ r1, e ≠ Ev.start ∧ e ≠ Ev.stop ∧ e ≠ Ev.eof := by
@@ -495,7 +586,7 @@ theorem holds_run (c : Cfg) (evs : List Ev) (hs : shape c evs = true) :
             rw [List.dropLast_append_of_ne_nil (by simp)]
             exact List.mem_append_left _ he'
           have h1 := (C14L.run_sinv c hseq r1 he1).prefix
-          rw [wanted_none c (hsr hseq)]
+          rw [asked_seq c hseq]
           refine h1.trans (List.IsPrefix.trans ?_ (List.isPrefixOf_iff_prefix.1 hp))
           rw [arrivedOf_eq, C14L.arrived_append]
           exact List.prefix_append _ _
@@ -517,7 +608,9 @@ theorem holds_run (c : Cfg) (evs : List Ev) (hs : shape c evs = true) :
       rw [afterStop_none _ _ hnostop]; exact ⟨rfl, Nat.zero_le _⟩
     cases hseq : c.seq
     · -- random-access source
+      have hnf := C14L.rangeNF_of_ok c (hr hseq)
       have hinv := C14L.run_ninv c hseq hb hnf rest hq
+      rw [asked_nonseq c hseq]
       refine ⟨hinv.prefix, ?_, ?_, ?_, hE⟩
       · intro _
         rcases hinv with h | h
@@ -539,7 +632,7 @@ theorem holds_run (c : Cfg) (evs : List Ev) (hs : shape c evs = true) :
       rcases h_sq with h | ⟨⟨he, hp⟩, hlast⟩
       · rw [hseq] at h; cases h
       have hp' := List.isPrefixOf_iff_prefix.1 hp
-      rw [wanted_none c hrange]
+      rw [asked_seq c hseq]
       rcases snoc_cases rest with rfl | ⟨r, a, rfl⟩
       · -- just `start`
         have hinv := C14L.run_sinv c hseq [] (by simp)
@@ -645,6 +738,48 @@ example : shape cfgF [.start, .turn, .turn, .turn, .turn] = true ∧
 example : shape cfgR [.start, .turn, .start] = false ∧ shape cfgR [.start, .stop, .stop] = false ∧
     shape cfgS [.start, .eof, .arrive [65]] = false ∧ shape cfgS [.start, .arrive [66]] = false := by decide
 
+-- a source that has been read from: "ABCDEFG" standing at 2, block 3: "CDEFG" is copied; with the range
+-- (0,4) (no seek): "CDE"; with the range (3,5) `start()` seeks: "DEF" wherever the source stood
+private def cfgP : Cfg := { src := abcdefg, block := 3, prePos := 2 }
+example : writtenOf (Copier.run cfgP [.start, .turn, .turn, .turn, .turn]).log = [67, 68, 69, 70, 71] ∧
+    wanted cfgP = [67, 68, 69, 70, 71] := by decide
+example : writtenOf (Copier.run { cfgP with range := some (0, 4) } [.start, .turn, .turn, .turn]).log = [67, 68, 69] ∧
+    wanted { cfgP with range := some (0, 4) } = [67, 68, 69] := by decide
+example : writtenOf (Copier.run { cfgP with range := some (3, 5), prePos := 6 } [.start, .turn, .turn, .turn]).log = [68, 69, 70] ∧
+    wanted { cfgP with range := some (3, 5), prePos := 6 } = [68, 69, 70] := by decide
+-- the hypotheses of `exact_random_access` / `errors` are satisfiable with a position > 0 (and `rangeOK`'s
+-- side condition "the first byte lies inside the source" with it), on a multi-block copy
+example : cfgP.seq = false ∧ anyFault cfgP = false ∧ cfgP.block ≥ 1 ∧ rangeOK cfgP = true ∧ firstPos cfgP = 2 ∧
+    4 ≥ (wanted cfgP).length / cfgP.block + 2 := by decide
+example : rangeOK { cfgP with range := some (0, 4) } = true ∧ rangeOK { cfgP with prePos := 7 } = true ∧
+    rangeOK { cfgP with prePos := 8 } = false ∧ rangeOK { cfgP with range := some (0, 1) } = false := by decide
+example : faultReached { cfgP with readFailAt := some 1 } = true ∧
+    (Copier.run { cfgP with readFailAt := some 1 } [.start, .turn, .turn, .turn]).log =
+      [.ev 0, .ev 1, wrote [67, 68, 69], .ev 2, err, fin, .ev 3] := by decide
+example : holds cfgP [.start, .turn, .turn, .turn, .turn] (Copier.run cfgP [.start, .turn, .turn, .turn, .turn]).log = true ∧
+    -- a copier that rewinds the source to 0 is rejected
+    holds cfgP [.start, .turn, .turn, .turn, .turn]
+      [.ev 0, .ev 1, wrote [65, 66, 67], .ev 2, wrote [68, 69, 70], .ev 3, wrote [71], fin, .ev 4] = false := by decide
+-- the range (0,2) on a source standing at 5: its end lies before the first byte (error, completion, nothing
+-- written); (0,4): the empty range
+example : (Copier.run { cfgP with range := some (0, 2), prePos := 5 } [.start, .turn, .turn]).log =
+    [.ev 0, .ev 1, err, fin, .ev 2] ∧
+    (Copier.run { cfgP with range := some (0, 4), prePos := 5 } [.start, .turn, .turn]).log =
+    [.ev 0, .ev 1, fin, .ev 2] := by decide
+
+-- a sequential source "ABC": "A" announced, "BC" arriving quietly with the end of the stream
+private def evsQ : List Ev := [.start, .turn, .arrive [65], .arriveQ [66, 67], .eof]
+example : (Copier.run cfgS evsQ).log =
+    [.ev 0, .ev 1, .ev 2, wrote [65], .ev 3, .ev 4, wrote [66, 67], fin] := by decide
+example : feedOnly [.turn, .arrive [65], .arriveQ [66, 67]] = true ∧
+    arrivedOf [.turn, .arrive [65], .arriveQ [66, 67]] = [65, 66, 67] := by decide
+example : shape cfgS evsQ = true ∧ holds cfgS evsQ (Copier.run cfgS evsQ).log = true ∧
+    -- a copier that does not drain the source at the end of the stream is rejected
+    holds cfgS evsQ [.ev 0, .ev 1, .ev 2, wrote [65], .ev 3, .ev 4, fin] = false := by decide
+-- nothing but quiet arrivals: the timer-triggered read takes the first, the end of the stream the second
+example : (Copier.run cfgS [.start, .arriveQ [65, 66], .turn, .arriveQ [67], .eof]).log =
+    [.ev 0, .ev 1, .ev 2, wrote [65, 66], .ev 3, .ev 4, wrote [67], fin] := by decide
+
 /-! ### open failures (`holdsOpen`) -/
 
 theorem counts_idle_log (d : List Obs) (hd : d.all C14O.isEv = true) :
@@ -698,7 +833,7 @@ theorem holdsOpen_run (c : Cfg) (evs : List Ev) : holdsOpen c evs (run c evs).lo
           exact Or.inr ⟨Ev.stop, hx, by decide⟩
         rw [this] at hst; cases hst
       have hidle := C14O.run_idle c rest _ 1 (C14O.start_idle c hf) h1 h2
-      have hrun : (run c (Ev.start :: rest)).log = ((rest.foldl (stepK c) ((stepK c ({}, 0) .start).1, 1)).1).log := rfl
+      have hrun : (run c (Ev.start :: rest)).log = ((rest.foldl (stepK c) ((stepK c (init c, 0) .start).1, 1)).1).log := rfl
       obtain ⟨_, _, d, hl, hd⟩ := hidle
       rw [hrun, hl]
       obtain ⟨a, b, c', d'⟩ := counts_idle_log d hd
@@ -725,12 +860,13 @@ def startTurns (evs : List Ev) : Bool :=
   | .start :: r => !r.isEmpty && r.all (· == .turn)
   | _ => false
 
-/-- a range whose end lies before its start asks for no byte at all: nothing reaches the destination
+/-- a range whose end lies before the first byte (its start if > 0, else where the source stands)
+    asks for no byte at all: nothing reaches the destination
     and completion is signalled exactly once (random-access source, no injected fault, left to run) -/
 def holdsReversed (c : Cfg) (evs : List Ev) (obs : List Obs) : Bool :=
   match c.range with
-  | some (f, t) =>
-    if !c.seq && !anyFault c && decide (0 ≤ t) && decide (t < f) && decide (f ≤ c.src.length) && startTurns evs
+  | some (_, t) =>
+    if !c.seq && !anyFault c && decide (0 ≤ t) && decide (t < firstPos c) && decide (firstPos c ≤ c.src.length) && startTurns evs
     then writtenOf obs == [] && Obs.countP isFin obs == 1
     else true
   | none => true
@@ -778,5 +914,397 @@ def holdsEvery (c : Cfg) (evs : List Ev) (obs : List Obs) : Bool := holdsAll c e
 theorem holdsEvery_run (c : Cfg) (evs : List Ev) (hs : shape c evs = true) :
     holdsEvery c evs (run c evs).log = true := by
   simp [holdsEvery, holdsAll_run c evs hs, holdsReversed_run c evs]
+
+
+/-! ### 7. `start()` again after `stop()` -/
+
+/-- a range start > 0 makes `start()` seek: where the source stood is irrelevant -/
+theorem wanted_seek (c : Cfg) (q : Nat) (h : rangeFrom c > 0) : wanted { c with prePos := q } = wanted c := by
+  unfold wanted
+  cases hr : c.range with
+  | none => simp [rangeFrom, hr] at h
+  | some ft =>
+    obtain ⟨f, t⟩ := ft
+    have hf : f > 0 := by simpa [rangeFrom, hr] using h
+    simp only [hf, if_true]
+
+theorem rangeOK_seek (c : Cfg) (q : Nat) (h : rangeFrom c > 0) : rangeOK { c with prePos := q } = rangeOK c := by
+  have e1 : firstPos { c with prePos := q } = firstPos c := by
+    unfold firstPos
+    have : rangeFrom { c with prePos := q } = rangeFrom c := rfl
+    rw [this, if_pos h, if_pos h]
+  unfold rangeOK
+  simp only [e1]
+  cases hr : c.range with
+  | none => simp [rangeFrom, hr] at h
+  | some ft => rfl
+
+/-- **the second run.**  A random-access copier that has run before (events `pre`, whatever they
+    were) and whose timer is idle — the stale 0 ms timer of a stopped copy has fired — is started
+    again, no device fault injected; `c2` is the configuration whose source stands where `pre`
+    left it (`(run c pre).pos`).  Then the observations from the marker of that `start` on
+    (`tail`) are those of a first run of `c2`: whatever events other than start/stop follow, the
+    bytes written are a prefix of `wanted c2`; left to run they are exactly `wanted c2`, with exactly
+    one further completion, after the last write, and no error.
+    `rangeOK c2` asks that the first byte of the second run lies inside the source and not beyond
+    the end of the range (see `reversed_range` for the other case); it holds in particular when
+    the first run was stopped before it reached the end of the range (`restart_resumes`) and, if
+    the range start is > 0, whenever `rangeOK c` does (`restart_ranged`). -/
+theorem restart (c : Cfg) (hseq : c.seq = false) (hnf : anyFault c = false) (hb : c.block ≥ 1)
+    (pre r : List Ev) (hidle : (Copier.run c pre).pending = .none)
+    (hr : rangeOK { c with prePos := (Copier.run c pre).pos } = true) (hq : quiet r = true) :
+    let c2 : Cfg := { c with prePos := (Copier.run c pre).pos }
+    let s := Copier.run c (pre ++ .start :: r)
+    let tail := s.log.drop (Copier.run c pre).log.length
+    s.log = (Copier.run c pre).log ++ tail ∧
+    tail.head? = some (Obs.ev pre.length) ∧ Obs.ev pre.length ∉ (Copier.run c pre).log ∧
+    writtenOf tail <+: wanted c2 ∧
+    (nTurns r ≥ (wanted c2).length / c.block + 2 →
+      writtenOf tail = wanted c2 ∧
+      Obs.countP isFin tail = 1 ∧
+      Obs.countP isErr tail = 0 ∧
+      Obs.countP isWrote ((tail.dropWhile (fun o => !isFin o)).drop 1) = 0 ∧
+      s.pending = .none) := by
+  intro c2 s tail
+  have hnf2 : C14L.RangeNF c2 := C14L.rangeNF_of_ok c2 hr
+  obtain ⟨s2, rest, hlog, hpend, hs2, hmk, hinv⟩ :=
+    C14L.run_restart c hseq hnf hb pre r hidle hnf2 (quiet_iff.1 hq)
+  have htail : tail = s2.log := by
+    show (Copier.run c (pre ++ .start :: r)).log.drop _ = _
+    rw [hlog, List.drop_left]
+  rw [htail]
+  refine ⟨hlog, by rw [hs2]; rfl, hmk, hinv.prefix, ?_⟩
+  intro hn
+  have hd : C14L.Done c2 s2 := hinv.done hb (by
+    show C14L.nTurns r ≥ (C14L.wanted c2).length / c.block + 1
+    rw [nTurns_eq, wanted_eq] at hn; omega)
+  rcases hd.res with ⟨he, hw, _, _⟩ | ⟨_, hf⟩
+  · exact ⟨hw, hd.closed.cnt_fin, he, hd.closed.no_wrote_after, by show (Copier.run c _).pending = _; rw [hpend]; exact hd.pending⟩
+  · have : C14L.anyFault c2 = C14L.anyFault c := rfl
+    rw [this, ← anyFault_eq, hnf] at hf; cases hf
+
+/-- the second run of a copy with a range start > 0: `start()` seeks there again, so — wherever
+    the first run was stopped — the second run, left to run, writes exactly the wanted bytes
+    again, followed by exactly one further completion -/
+theorem restart_ranged (c : Cfg) (hseq : c.seq = false) (hnf : anyFault c = false) (hb : c.block ≥ 1)
+    (hfrom : rangeFrom c > 0) (hr : rangeOK c = true)
+    (pre r : List Ev) (hidle : (Copier.run c pre).pending = .none) (hq : quiet r = true)
+    (hn : nTurns r ≥ (wanted c).length / c.block + 2) :
+    let s := Copier.run c (pre ++ .start :: r)
+    let tail := s.log.drop (Copier.run c pre).log.length
+    s.log = (Copier.run c pre).log ++ tail ∧
+    tail.head? = some (Obs.ev pre.length) ∧
+    writtenOf tail = wanted c ∧
+    Obs.countP isFin tail = 1 ∧
+    Obs.countP isErr tail = 0 ∧
+    Obs.countP isWrote ((tail.dropWhile (fun o => !isFin o)).drop 1) = 0 ∧
+    s.pending = .none := by
+  intro s tail
+  have hw := wanted_seek c (Copier.run c pre).pos hfrom
+  have hr2 : rangeOK { c with prePos := (Copier.run c pre).pos } = true := by
+    rw [rangeOK_seek c _ hfrom]; exact hr
+  obtain ⟨h1, h2, _, _, h5⟩ := restart c hseq hnf hb pre r hidle hr2 hq
+  rw [hw] at h5
+  obtain ⟨a, b, d, e, f⟩ := h5 hn
+  exact ⟨h1, h2, a, b, d, e, f⟩
+
+/-- the hypothesis "the timer is idle" of `restart` after a `stop()`: one event-loop turn after it
+    (the stale timer fires and finds the copier stopped), then anything but `start` — and the
+    source still stands where the events before the `stop` left it -/
+theorem idle_after_stop (c : Cfg) (pre post : List Ev) (hpost : ∀ e ∈ post, e ≠ .start) :
+    (Copier.run c (pre ++ .stop :: .turn :: post)).pending = .none ∧
+    (Copier.run c (pre ++ .stop :: .turn :: post)).pos = (Copier.run c pre).pos :=
+  C14L.run_stop_turn c pre post hpost
+
+/-- a copy without range start (`rangeFrom ≤ 0`: no seek) whose source stands `d` bytes further:
+    it is asked for the wanted bytes minus their first `d` -/
+theorem wanted_shift (c : Cfg) (d : Nat) (hfrom : ¬ rangeFrom c > 0) :
+    wanted { c with prePos := c.prePos + d } = (wanted c).drop d := by
+  unfold wanted
+  cases hr : c.range with
+  | none => simp only []; rw [List.drop_drop]
+  | some ft =>
+    obtain ⟨f, t⟩ := ft
+    have hf : ¬ f > 0 := by simpa [rangeFrom, hr] using hfrom
+    simp only [hf, if_false]
+    by_cases hf0 : f < 0
+    · simp [hf0]
+    · simp only [hf0, if_false]
+      by_cases ht : t < 0
+      · simp only [ht, if_true]; rw [List.drop_drop]
+      · simp only [ht, if_false]
+        by_cases h1 : t < (c.prePos : Int)
+        · have h2 : t < ((c.prePos + d : Nat) : Int) := by omega
+          rw [if_pos h1, if_pos h2, List.drop_nil]
+        · rw [if_neg h1]
+          by_cases h2 : t < ((c.prePos + d : Nat) : Int)
+          · rw [if_pos h2]
+            symm
+            apply List.drop_eq_nil_of_le
+            rw [List.length_take]; omega
+          · rw [if_neg h2, List.drop_take, List.drop_drop]
+            congr 1
+            omega
+
+/-- … and if fewer than `|wanted|` bytes (or none) lie behind, it is in the domain again -/
+theorem rangeOK_shift (c : Cfg) (d : Nat) (hr : rangeOK c = true) (hfrom : ¬ rangeFrom c > 0)
+    (hd : d = 0 ∨ d < (wanted c).length) : rangeOK { c with prePos := c.prePos + d } = true := by
+  have hnf := C14L.rangeNF_of_ok c hr
+  have hp : C14L.f0 c = c.prePos := C14L.f0_of_zero c hfrom
+  have hlen := C14L.wanted_len_le c hnf
+  have hle := hnf.f0_le
+  rw [hp] at hlen hle
+  rw [← wanted_eq] at hlen
+  have hd' : c.prePos + d ≤ c.src.length := by omega
+  have hfp : firstPos { c with prePos := c.prePos + d } = c.prePos + d := by
+    unfold firstPos
+    have : rangeFrom { c with prePos := c.prePos + d } = rangeFrom c := rfl
+    rw [this, if_neg hfrom]
+  unfold rangeOK
+  rw [hfp]
+  cases hrg : c.range with
+  | none => simpa using hd'
+  | some ft =>
+    obtain ⟨f, t⟩ := ft
+    have e1 : rangeFrom c = f := by simp [rangeFrom, hrg]
+    have e2 : rangeTo c = t := by simp [rangeTo, hrg]
+    have hf0 := hnf.from_nonneg
+    rw [e1] at hf0
+    have hto : t = -1 ∨ ((c.prePos + d : Nat) : Int) ≤ t := by
+      rcases hnf.to_cases with ⟨h1, _⟩ | ⟨tn, h1, h2, h3⟩
+      · left; rw [← e2]; exact h1
+      · right
+        rw [← e2, h1, hp] at *
+        have : (wanted c).length ≤ tn + 1 - c.prePos := by
+          rw [wanted_eq, h3, List.length_take]; omega
+        omega
+    simp only [Bool.and_eq_true, Bool.or_eq_true, decide_eq_true_eq, beq_iff_eq]
+    exact ⟨⟨hf0, hto.symm.imp id id⟩, hd'⟩
+
+/-- **stop mid-copy, then resume.**  A fault-free random-access copy without range start
+    (`rangeFrom ≤ 0`: `start()` does not seek) is stopped after `m` blocks, with bytes still to copy
+    (`m = 0` or `m * block < |wanted|`); at least one event-loop turn later (the stale timer fires)
+    it is started again and left to run.  The first run wrote the first `m * block` wanted bytes;
+    the second run writes exactly the rest — the source from the position where the first run
+    stopped —, followed by exactly one further completion; together: exactly the wanted bytes,
+    in order and without duplication. -/
+theorem restart_resumes (c : Cfg) (hseq : c.seq = false) (hnf : anyFault c = false) (hb : c.block ≥ 1)
+    (hr : rangeOK c = true) (hfrom : ¬ rangeFrom c > 0)
+    (m : Nat) (hm : m = 0 ∨ m * c.block < (wanted c).length)
+    (post r : List Ev) (hpost : quiet post = true) (hq : quiet r = true)
+    (hn : nTurns r ≥ ((wanted c).length - m * c.block) / c.block + 2) :
+    let pre := (.start :: List.replicate m .turn) ++ .stop :: .turn :: post
+    let s := Copier.run c (pre ++ .start :: r)
+    let tail := s.log.drop (Copier.run c pre).log.length
+    s.log = (Copier.run c pre).log ++ tail ∧
+    writtenOf (Copier.run c pre).log = (wanted c).take (m * c.block) ∧
+    writtenOf tail = (wanted c).drop (m * c.block) ∧
+    writtenOf s.log = wanted c ∧
+    Obs.countP isFin tail = 1 ∧
+    Obs.countP isErr tail = 0 ∧
+    Obs.countP isWrote ((tail.dropWhile (fun o => !isFin o)).drop 1) = 0 ∧
+    s.pending = .none := by
+  intro pre s tail
+  have hnfr := C14L.rangeNF_of_ok c hr
+  have hrun := C14L.run_running c hseq hnf hb hnfr m (by rw [← wanted_eq]; exact hm)
+  have hpost' : ∀ e ∈ post, e ≠ Ev.start := fun e he => ((quiet_iff.1 hpost) e he).1
+  obtain ⟨hidle, hpos⟩ := idle_after_stop c (.start :: List.replicate m .turn) post hpost'
+  have hpos' : (Copier.run c pre).pos = c.prePos + m * c.block := by
+    show (Copier.run c ((.start :: List.replicate m .turn) ++ .stop :: .turn :: post)).pos = _
+    rw [hpos, hrun.pos, C14L.f0_of_zero c hfrom]
+  -- the first run's bytes
+  have hstop : Ev.stop ∉ (Ev.start :: List.replicate m Ev.turn) := by
+    intro h
+    rcases List.mem_cons.1 h with h | h
+    · cases h
+    · cases List.eq_of_mem_replicate h
+  have hq1 : quiet (Ev.turn :: post) = true := by
+    apply quiet_iff.2
+    intro e he
+    rcases List.mem_cons.1 he with h | h
+    · subst h; simp
+    · exact (quiet_iff.1 hpost) e h
+  have hw1 : writtenOf (Copier.run c pre).log = (wanted c).take (m * c.block) := by
+    show writtenOf (Copier.run c ((.start :: List.replicate m .turn) ++ .stop :: .turn :: post)).log = _
+    rw [(afterStop_run c _ _ hstop hq1).2, writtenOf_eq, hrun.wr, wanted_eq]
+  -- the second run
+  have hr2 : rangeOK { c with prePos := (Copier.run c pre).pos } = true := by
+    rw [hpos']; exact rangeOK_shift c _ hr hfrom (by
+      rcases hm with h | h
+      · left; rw [h]; simp
+      · right; exact h)
+  obtain ⟨h1, _, _, _, h5⟩ := restart c hseq hnf hb pre r hidle hr2 hq
+  rw [hpos', wanted_shift c _ hfrom] at h5
+  obtain ⟨a, b, d, e, f⟩ := h5 (by rw [List.length_drop]; exact hn)
+  refine ⟨h1, hw1, a, ?_, b, d, e, f⟩
+  show writtenOf (Copier.run c (pre ++ .start :: r)).log = wanted c
+  rw [h1, writtenOf_eq, C14L.written_append, ← writtenOf_eq, hw1, a, List.take_append_drop]
+
+/-! #### the executable predicate for scenarios with a second `start` -/
+
+/-- index of the first `start` that is not the head event: the copy is started again -/
+def restartAt (evs : List Ev) : Option Nat := ((evs.drop 1).findIdx? (· == .start)).map (· + 1)
+
+/-- the events of the first run … -/
+def firstRunEvs (evs : List Ev) : List Ev :=
+  match restartAt evs with | none => evs | some k => evs.take k
+/-- … and its observations: those before the marker of the second `start` -/
+def firstRunObs (evs : List Ev) (obs : List Obs) : List Obs :=
+  match restartAt evs with | none => obs | some k => obs.takeWhile (fun o => o != Obs.ev k)
+
+/-- the second run (random-access source, no injected fault, timer idle when `start` is called
+    again, no further start/stop): what is observed from the marker of the second `start` on.
+    `c2` is the configuration whose source stands where the model's first run left it — the
+    implementation's position is not observable, but the bytes of its first run are, and they are
+    compared with the model's.  In order and without duplication: a prefix of `wanted c2`; left
+    to run: exactly `wanted c2` (the wanted bytes again if the range start is > 0, the source from
+    where the first run stopped otherwise), one completion after the last write, no error. -/
+def holdsRestart (c : Cfg) (evs : List Ev) (obs : List Obs) : Bool :=
+  match restartAt evs with
+  | none => true
+  | some k =>
+    let s1 := Copier.run c (evs.take k)
+    let c2 : Cfg := { c with prePos := s1.pos }
+    let post := evs.drop (k + 1)
+    let tail := obs.dropWhile (fun o => o != Obs.ev k)
+    if !c.seq && !anyFault c && decide (c.block ≥ 1) && rangeOK c2 && s1.pending == .none && quiet post
+    then (writtenOf tail).isPrefixOf (wanted c2) &&
+         (if nTurns post ≥ (wanted c2).length / c.block + 2
+          then writtenOf tail == wanted c2 && Obs.countP isFin tail == 1 && Obs.countP isErr tail == 0 &&
+               Obs.countP isWrote ((tail.dropWhile (fun o => !isFin o)).drop 1) == 0
+          else true)
+    else true
+
+/-- the predicate the driver evaluates: the clauses of `holdsEvery` for the first run (they are
+    about one `start`, at the head, and do not apply to what follows a second one), `holdsRestart`
+    for the second -/
+def holdsRuns (c : Cfg) (evs : List Ev) (obs : List Obs) : Bool :=
+  holdsEvery c (firstRunEvs evs) (firstRunObs evs obs) && holdsRestart c evs obs
+
+theorem restartAt_spec {evs : List Ev} {k : Nat} (h : restartAt evs = some k) :
+    evs = evs.take k ++ .start :: evs.drop (k + 1) ∧ (evs.take k).length = k := by
+  unfold restartAt at h
+  cases hj : (evs.drop 1).findIdx? (· == Ev.start) with
+  | none => rw [hj] at h; cases h
+  | some j =>
+    rw [hj] at h
+    simp only [Option.map_some, Option.some.injEq] at h
+    subst h
+    obtain ⟨hlt, hp, _⟩ := List.findIdx?_eq_some_iff_getElem.1 hj
+    have hlt' : j + 1 < evs.length := by
+      rw [List.length_drop] at hlt; omega
+    have hget : evs[j + 1] = Ev.start := by
+      rw [List.getElem_drop] at hp
+      have : evs[1 + j] = evs[j + 1] := by congr 1; omega
+      rw [this] at hp
+      simpa using hp
+    refine ⟨?_, by rw [List.length_take]; omega⟩
+    conv => lhs; rw [← List.take_append_drop (j + 1) evs, List.drop_eq_getElem_cons hlt', hget]
+
+/-- the observations of the first run of a model run are the model run of the first run's events -/
+theorem firstRunObs_run (c : Cfg) (evs : List Ev) :
+    firstRunObs evs (Copier.run c evs).log = (Copier.run c (firstRunEvs evs)).log := by
+  unfold firstRunObs firstRunEvs
+  cases hk : restartAt evs with
+  | none => rfl
+  | some k =>
+    obtain ⟨hsplit, hlen⟩ := restartAt_spec hk
+    simp only []
+    obtain ⟨hmk, rest, hl⟩ := C14L.run_split c (evs.take k) .start (evs.drop (k + 1))
+    rw [hlen] at hmk hl
+    conv => lhs; rw [hsplit]
+    rw [hl, C14L.takeWhile_ne_mk hmk]
+
+/-- **C14 (`holdsRestart_run`)**: on every model run, for every configuration and event list -/
+theorem holdsRestart_run (c : Cfg) (evs : List Ev) : holdsRestart c evs (Copier.run c evs).log = true := by
+  unfold holdsRestart
+  cases hk : restartAt evs with
+  | none => rfl
+  | some k =>
+    simp only []
+    split
+    · rename_i hc
+      simp only [Bool.and_eq_true, Bool.not_eq_true', decide_eq_true_eq, beq_iff_eq] at hc
+      obtain ⟨⟨⟨⟨⟨hseq, hnf⟩, hb⟩, hr⟩, hidle⟩, hq⟩ := hc
+      obtain ⟨hsplit, hlen⟩ := restartAt_spec hk
+      obtain ⟨h1, h2, h3, h4, h5⟩ := restart c hseq hnf hb (evs.take k) (evs.drop (k + 1)) hidle hr hq
+      rw [← hsplit] at h1 h2 h4 h5
+      rw [hlen] at h2 h3
+      -- the tail the predicate cuts out is the tail of the theorem
+      generalize hT : (Copier.run c evs).log.drop (Copier.run c (evs.take k)).log.length = T at h1 h2 h4 h5
+      have hcut : (Copier.run c evs).log.dropWhile (fun o => o != Obs.ev k) = T := by
+        cases T with
+        | nil => simp at h2
+        | cons t T' =>
+          simp only [List.head?_cons, Option.some.injEq] at h2
+          subst h2
+          rw [h1, C14L.dropWhile_ne_mk h3]
+      rw [hcut]
+      refine Bool.and_eq_true_iff.2 ⟨List.isPrefixOf_iff_prefix.2 h4, ?_⟩
+      split
+      · rename_i hn
+        obtain ⟨a, b, d, e, _⟩ := h5 hn
+        rw [a, b, d, e]
+        simp
+      · rfl
+    · rfl
+
+/-- `shape` for scenarios that may start the copy a second time: the first run has the documented
+    shape (what follows the second `start` is unconstrained: `holdsRestart` states its own
+    conditions) -/
+def shapeRuns (c : Cfg) (evs : List Ev) : Bool := shape c (firstRunEvs evs)
+
+/-- **C14 (`holdsRuns_run`)**: the predicate the driver evaluates holds on every run of the model
+    whose first run has the documented shape -/
+theorem holdsRuns_run (c : Cfg) (evs : List Ev) (hs : shapeRuns c evs = true) :
+    holdsRuns c evs (Copier.run c evs).log = true := by
+  unfold holdsRuns
+  rw [firstRunObs_run, holdsEvery_run c _ hs, holdsRestart_run]
+  rfl
+
+/-- without a second `start` the predicate is `holdsEvery` -/
+theorem holdsRuns_single (c : Cfg) (evs : List Ev) (obs : List Obs) (h : restartAt evs = none) :
+    holdsRuns c evs obs = holdsEvery c evs obs := by
+  simp [holdsRuns, firstRunEvs, firstRunObs, holdsRestart, h]
+
+/-! #### non-vacuity: restarts -/
+
+-- "ABCDEFG", block 3, range (2,5): stopped after the first block ("CDE"), restarted two turns later: the
+-- second run seeks to 2 again and writes "CDEF", then completes once
+private def evsRR : List Ev := [.start, .turn, .stop, .turn, .turn, .start, .turn, .turn, .turn, .turn]
+example : (Copier.run cfgR evsRR).log =
+    [.ev 0, .ev 1, wrote [67, 68, 69], .ev 2, fin, .ev 3, .ev 4,
+     .ev 5, .ev 6, wrote [67, 68, 69], .ev 7, wrote [70], fin, .ev 8, .ev 9] := by decide
+example : restartAt evsRR = some 5 ∧ shapeRuns cfgR evsRR = true ∧
+    holdsRuns cfgR evsRR (Copier.run cfgR evsRR).log = true := by decide
+-- the hypotheses of `restart` / `restart_ranged` are satisfiable (pre = start, turn, stop, turn, turn)
+example : cfgR.seq = false ∧ anyFault cfgR = false ∧ cfgR.block ≥ 1 ∧ rangeFrom cfgR > 0 ∧ rangeOK cfgR = true ∧
+    (Copier.run cfgR [.start, .turn, .stop, .turn, .turn]).pending = .none ∧
+    (Copier.run cfgR [.start, .turn, .stop, .turn, .turn]).pos = 5 ∧
+    rangeOK { cfgR with prePos := 5 } = true ∧
+    quiet [Ev.turn, .turn, .turn, .turn] = true ∧ nTurns [Ev.turn, .turn, .turn, .turn] ≥ (wanted cfgR).length / cfgR.block + 2 := by
+  decide
+-- a second run that resumed where the first stopped (no seek) is rejected
+example : holdsRuns cfgR evsRR
+    [.ev 0, .ev 1, wrote [67, 68, 69], .ev 2, fin, .ev 3, .ev 4, .ev 5, .ev 6, wrote [70], fin, .ev 7, .ev 8, .ev 9] = false := by
+  decide
+-- no range: the second run resumes — "ABC", then "DEFG"
+private def cfgN : Cfg := { src := abcdefg, block := 3 }
+example : (Copier.run cfgN evsRR).log =
+    [.ev 0, .ev 1, wrote [65, 66, 67], .ev 2, fin, .ev 3, .ev 4,
+     .ev 5, .ev 6, wrote [68, 69, 70], .ev 7, wrote [71], fin, .ev 8, .ev 9] := by decide
+example : holdsRuns cfgN evsRR (Copier.run cfgN evsRR).log = true ∧
+    -- a second run that starts over from byte 0, or that never completes, is rejected
+    holdsRuns cfgN evsRR [.ev 0, .ev 1, wrote [65, 66, 67], .ev 2, fin, .ev 3, .ev 4,
+      .ev 5, .ev 6, wrote [65, 66, 67], .ev 7, wrote [68, 69, 70], .ev 8, wrote [71], fin, .ev 9] = false ∧
+    holdsRuns cfgN evsRR [.ev 0, .ev 1, wrote [65, 66, 67], .ev 2, fin, .ev 3, .ev 4,
+      .ev 5, .ev 6, wrote [68, 69, 70], .ev 7, wrote [71], .ev 8, .ev 9] = false := by decide
+-- the hypotheses of `restart_resumes` are satisfiable (m = 1 block of 3 out of 7 bytes)
+example : cfgN.seq = false ∧ anyFault cfgN = false ∧ cfgN.block ≥ 1 ∧ rangeOK cfgN = true ∧ ¬ rangeFrom cfgN > 0 ∧
+    1 * cfgN.block < (wanted cfgN).length ∧ quiet [Ev.turn] = true ∧
+    nTurns [Ev.turn, .turn, .turn, .turn] ≥ ((wanted cfgN).length - 1 * cfgN.block) / cfgN.block + 2 := by decide
+-- the first run's clauses still see the first run only: a write after the first stop() is rejected
+example : holdsRuns cfgN evsRR [.ev 0, .ev 1, wrote [65, 66, 67], .ev 2, fin, .ev 3, wrote [68, 69, 70], .ev 4,
+      .ev 5, .ev 6, wrote [68, 69, 70], .ev 7, wrote [71], fin, .ev 8, .ev 9] = false := by decide
 
 end Qhttp.C14
